@@ -46,6 +46,7 @@ type Case struct {
 	AuthOff  int64    `json:"authtime_off_ms"`
 	CAddr    []string `json:"caddr"`                   // subset of {"A","B"}; nil = absent
 	PAC      string   `json:"pac"`                     // "", "good", "badsig"
+	PACPos   string   `json:"pac_pos,omitempty"`       // where the AD-IF-RELEVANT { AD-WIN2K-PAC } element sits among the ticket's authorization data: "" = alone, behind-empty, behind-restriction, behind-two, before-other
 	Trailing string   `json:"wire_trailing,omitempty"` // "" | "forged-encpart": unauthenticated clear-text EncTicketPart-shaped SEQUENCE appended to the Ticket on the wire
 	// authenticator
 	ACName   string `json:"auth_cname"`
@@ -438,7 +439,24 @@ func (c *Case) Mint(samplePAC []byte) (*Minted, error) {
 			}
 			p[23] = 0x7f
 		}
-		t.AuthData = []mint.AD{mint.PACAuthData(p)}
+		// other authorization data a KDC issues next to the PAC: an AD-IF-RELEVANT holding a KERB-AD-RESTRICTION-ENTRY (141,
+		// Windows KDCs) and an AD-IF-RELEVANT without contents; the PAC counts wherever its container stands
+		restriction := mint.AD{Type: 1, Data: der.AuthData.MustEncode([]any{der.M{"ad-type": int64(141), "ad-data": []byte{0x30, 0x03, 0x02, 0x01, 0x00}}})}
+		empty := mint.AD{Type: 1, Data: der.AuthData.MustEncode([]any{})}
+		switch c.PACPos {
+		case "":
+			t.AuthData = []mint.AD{mint.PACAuthData(p)}
+		case "behind-empty":
+			t.AuthData = []mint.AD{empty, mint.PACAuthData(p)}
+		case "behind-restriction":
+			t.AuthData = []mint.AD{restriction, mint.PACAuthData(p)}
+		case "behind-two":
+			t.AuthData = []mint.AD{restriction, empty, mint.PACAuthData(p)}
+		case "before-other":
+			t.AuthData = []mint.AD{mint.PACAuthData(p), restriction}
+		default:
+			return nil, fmt.Errorf("bad PAC position %q", c.PACPos)
+		}
 	}
 	if c.Trailing == "forged-encpart" {
 		// what a sender can put on the wire after the ticket's enc-part: a clear-text structure shaped like an
@@ -589,7 +607,13 @@ var Defects = map[string]func(c *Case){
 	"wire-trailing-forged-encpart-no-caddr": func(c *Case) { c.Trailing = "forged-encpart"; c.CAddr = nil; c.StartOff = nil },
 	"cname-empty":                           func(c *Case) { c.CName = ""; c.ACName = "" },
 	"crealm-mismatch":                       func(c *Case) { c.ACRealm = "EVIL.ORG" },
-	"crealm-foreign":                        func(c *Case) { c.CRealm = "PARTNER.NET"; c.ACRealm = "PARTNER.NET" },
+	// names and realms are case-sensitive octet strings: the same word in another letter case is another principal / realm
+	"crealm-other-case":       func(c *Case) { c.ACRealm = strings.ToLower(c.CRealm) },
+	"crealm-other-case-first": func(c *Case) { c.ACRealm = strings.ToLower(c.CRealm[:1]) + c.CRealm[1:] },
+	"crealm-trailing-dot":     func(c *Case) { c.ACRealm = c.CRealm + "." },
+	"cname-other-case":        func(c *Case) { c.ACName = strings.ToUpper(c.CName[:1]) + c.CName[1:] },
+	"cname-upper-case":        func(c *Case) { c.ACName = strings.ToUpper(c.CName) },
+	"crealm-foreign":          func(c *Case) { c.CRealm = "PARTNER.NET"; c.ACRealm = "PARTNER.NET" },
 	"auth-usage-wrong": func(c *Case) {
 		if c.ExpectedAuthUsage() == 11 {
 			c.AUsage = 7
@@ -614,11 +638,22 @@ var Defects = map[string]func(c *Case){
 	"pac-broken-empty":  func(c *Case) { c.PAC = "broken-empty" },
 	"pac-broken-count":  func(c *Case) { c.PAC = "broken-count" },
 	"pac-broken-offset": func(c *Case) { c.PAC = "broken-offset" },
+	// the PAC's container is not the first (or not the only) element of the ticket's authorization data
+	"pac-behind-empty":       func(c *Case) { c.PACPos = "behind-empty"; pacIfNone(c) },
+	"pac-behind-restriction": func(c *Case) { c.PACPos = "behind-restriction"; pacIfNone(c) },
+	"pac-behind-two":         func(c *Case) { c.PACPos = "behind-two"; pacIfNone(c) },
+	"pac-before-other":       func(c *Case) { c.PACPos = "before-other"; pacIfNone(c) },
 	// the session key sealed in the ticket is of another etype than the service key sealing the ticket (KDCs do this routinely)
 	"session-etype-other":  func(c *Case) { c.SessEType = OtherEType(c.TktEType) },
 	"session-etype-second": func(c *Case) { c.SessEType = AbsentEType(c.TktEType) },
 	"subkey-seq":           func(c *Case) { c.SubKey = true; c.Seq = true },
 	"replay":               func(c *Case) { c.Replay = true },
+}
+
+func pacIfNone(c *Case) {
+	if c.PAC == "" {
+		c.PAC = "good"
+	}
 }
 
 // DefectNames is the sorted catalogue.
